@@ -139,13 +139,18 @@ class OhNoz(Exception):
 
 
 class Recorder:
-    """out_stream / err_stream stand-in: records writes; `delay` makes it a slow consumer"""
+    """out_stream / err_stream stand-in: records writes; `delay` makes it a slow consumer.
+    With `encoding` the object advertises `.encoding` / `.errors` like a real text stream
+    (without it there are no such attributes at all); what is recorded is the text handed to write()."""
 
-    def __init__(self, delay=0.0):
+    def __init__(self, delay=0.0, encoding=None, errors=None):
         self.writes = []
         self.flushes = 0
         self.delay = delay
         self.lock = threading.Lock()
+        if encoding is not None:
+            self.encoding = encoding
+            self.errors = errors if errors is not None else "strict"
 
     def write(self, s):
         if self.delay:
@@ -159,6 +164,28 @@ class Recorder:
 
     def text(self):
         return "".join(self.writes)
+
+
+class WrapRecorder(io.TextIOWrapper):
+    """a REAL text stream as mirror target: io.TextIOWrapper over a BytesIO with its own error handler.
+    text() = the bytes the wrapper produced, decoded back with its encoding -- i.e. what the stream made of
+    the text it was handed (characters it cannot represent appear as the handler's escapes)."""
+
+    def __init__(self, encoding, errors="backslashreplace"):
+        self._verif_raw = io.BytesIO()
+        super().__init__(self._verif_raw, encoding=encoding, errors=errors, newline="", write_through=True)
+
+    def text(self):
+        self.flush()
+        return self._verif_raw.getvalue().decode(self.encoding)
+
+
+def mirror_stream(encoding=None, wrap=False, delay=0.0):
+    """recording mirror stream for run_scripted: plain Recorder (no .encoding), Recorder advertising
+    an encoding, or (wrap) a real TextIOWrapper(errors='backslashreplace')"""
+    if wrap and encoding is not None:
+        return WrapRecorder(encoding)
+    return Recorder(delay, encoding=encoding)
 
 
 class FakeTimer:
@@ -259,11 +286,18 @@ class ScriptedIn:
 
 
 class Env:
-    def __init__(self, events, never_eof=(), reap_echild=False):
+    def __init__(self, events, never_eof=(), reap_echild=False, pending_at_timer=False, real_kill=False):
         self.cv = threading.Condition()
         self.events = [list(e) for e in events]
         self.never_eof = set(never_eof)
         self.reap_echild = reap_echild
+        # optional (C14): the in/in_eof events directly after a timer event are input that is already
+        # queued when the timer fires (released atomically with the expiry, like the burst after an exit)
+        self.pending_at_timer = pending_at_timer
+        # optional (C14): kill() runs the REAL Local.kill against a stand-in child (see ScriptedRunner.kill)
+        self.real_kill = real_kill
+        self.kill_errors = []         # exceptions out of the timer's function (a real Timer thread dies of them)
+        self.kills_ineffective = 0    # real_kill: the stand-in child survived kill()
         self.avail = {"out": collections.deque(), "err": collections.deque(), "in": collections.deque()}
         self.in_eof = False
         self.exc_pending = {}
@@ -389,11 +423,14 @@ class Env:
                 return True
             return False
 
-    def kill(self):
+    def kill(self, effective=True):
         with self.cv:
             self.kills += 1
             if self.exited is None:
-                self.exited = -9
+                if effective:
+                    self.exited = -9
+                else:
+                    self.kills_ineffective += 1     # (real_kill only) the command keeps running
             else:
                 self.kills_after_exit += 1
             self.cv.notify_all()
@@ -504,7 +541,30 @@ class Env:
                     self.consumed.append(idx)
                 elif kind == "timer":
                     t = self.timer
-                    if t is not None:
+                    if t is not None and self.pending_at_timer:
+                        # the expiry and the input queued at that moment become visible together: the
+                        # lock is held while the timer's function runs, so neither the stdin worker nor
+                        # the wait loop's poll gets in between
+                        if not self.after_exit:
+                            j = idx + 1
+                            while j < len(self.events) and self.events[j][0] in ("in", "in_eof"):
+                                e2 = self.events[j]
+                                if e2[0] == "in":
+                                    unit = e2[1] if isinstance(e2[1], str) else bytes(e2[1])
+                                    self.avail["in"].append((j, unit))
+                                else:
+                                    self.in_eof = True
+                                self.prereleased.add(j)
+                                j += 1
+                        try:
+                            t.fire()
+                        except Exception as exc:     # noqa -- a real Timer thread dies of it; is_alive() turns False
+                            self.kill_errors.append(type(exc).__name__)
+                        if self.exited is not None:
+                            self.after_exit = True
+                        self.cv.notify_all()
+                        ok = self._wait(self._past_wait)
+                    elif t is not None:
                         self.cv.release()
                         try:
                             t.fire()
@@ -567,6 +627,68 @@ class Env:
         p0 = self.polls
         self.cv.wait(0.01)
         return self.polls > p0 and not self.left_wait
+
+
+class _FakeStdin:
+    """stand-in for Popen.stdin of the scripted command: closing it closes the scripted child-stdin sink
+    (later writes through _write_proc_stdin are rejected like writes on a closed pipe object)"""
+
+    def __init__(self, env):
+        self._env = env
+        self.closed = False
+
+    def close(self):
+        with self._env.cv:
+            if not self.closed:
+                self.closed = True
+                self._env.stdin_closes += 1
+                self._env.stdin_log.append("c:kill")
+            self._env.cv.notify_all()
+
+    def flush(self):
+        pass
+
+    def fileno(self):
+        raise ValueError("I/O operation on closed file" if self.closed else "scripted pipe: no descriptor")
+
+
+class _FakeProcess:
+    """stand-in for the Popen object of the scripted command, as far as kill() may use it"""
+
+    def __init__(self, env, child):
+        self._child = child
+        self.pid = child.pid
+        self.stdin = _FakeStdin(env)
+        self.stdout = self.stderr = None
+
+    def poll(self):
+        return self._child.poll()
+
+    def send_signal(self, sig):
+        self._child.send_signal(sig)
+
+    def kill(self):
+        self._child.kill()
+
+    def terminate(self):
+        self._child.terminate()
+
+
+class _KillProxy:
+    """`self` for the real Local.kill (Env(real_kill=True)): pid / process of the stand-in child; no
+    `process` attribute under a pty (as in Local); everything else is the scripted runner's"""
+
+    def __init__(self, runner, env, child):
+        self.__dict__["_verif_runner"] = runner
+        self.pid = child.pid
+        self.using_pty = runner.using_pty
+        if not runner.using_pty:
+            self.process = _FakeProcess(env, child)
+
+    def __getattr__(self, name):
+        if name == "process":
+            raise AttributeError(name)
+        return getattr(self.__dict__["_verif_runner"], name)
 
 
 def make_runner_class():
@@ -658,7 +780,34 @@ def make_runner_class():
             return self._verif_env.exited
 
         def kill(self):
-            self._verif_env.kill()
+            e = self._verif_env
+            if not e.real_kill:
+                e.kill()
+                return
+            # the REAL Local.kill, run on a stand-in for the command: an own, live child process (so the
+            # signal cannot reach anybody else) and a stand-in for Popen's stdin pipe object that shares
+            # the scripted child-stdin sink -- whatever kill() does to that pipe, the workers see it
+            import subprocess
+            child = subprocess.Popen(["sleep", "60"], stdin=subprocess.DEVNULL, stdout=subprocess.DEVNULL,
+                                     stderr=subprocess.DEVNULL)
+            err = None
+            try:
+                try:
+                    R.Local.kill(_KillProxy(self, e, child))
+                except Exception as exc:   # noqa
+                    err = exc
+                try:
+                    child.wait(2.0)
+                    effective = True
+                except subprocess.TimeoutExpired:
+                    effective = False
+            finally:
+                if child.poll() is None:
+                    child.kill()
+                    child.wait()
+            e.kill(effective)
+            if err is not None:
+                raise err
 
         def stop(self):
             self._verif_env.stop_calls += 1
@@ -721,7 +870,8 @@ def run_scripted(case):
                 "out_submits": [], "err_submits": [], "consumed": [], "joins": [], "exit_observed": False,
                 "started": False, "outcome": "HANG", "stdout": None, "stderr": None, "exited": None}
     env = Env(case.get("events", []), never_eof=case.get("never_eof", ()),
-              reap_echild=bool(case.get("pty")) and bool(case.get("reap_echild", True)))
+              reap_echild=bool(case.get("pty")) and bool(case.get("reap_echild", True)),
+              pending_at_timer=bool(case.get("pending_at_timer")), real_kill=bool(case.get("real_kill")))
     overrides = {}
     if case.get("config_timeout") is not None:
         overrides["timeouts"] = {"command": case["config_timeout"]}
@@ -732,8 +882,13 @@ def run_scripted(case):
         overrides["run"] = {"encoding": case["enc_cfg"]}     # a config value the keyword must beat
     ctx = Context(Config(overrides=overrides)) if overrides else Context()
     runner = cls(ctx, env, start_error=case.get("start_error"))
-    out_rec, err_rec = Recorder(case.get("slow_out", 0.0)), Recorder()   # explicit out_stream / err_stream objects
-    sys_out, sys_err = Recorder(), Recorder()            # what sys.stdout / sys.stderr receive meanwhile
+    # optional (C02): the stream objects advertise an encoding (out_menc / err_menc: None = no such
+    # attribute) and may be real TextIOWrappers with their own error handler (out_wrap / err_wrap)
+    o_enc, e_enc = case.get("out_menc"), case.get("err_menc")
+    o_wrap, e_wrap = bool(case.get("out_wrap")), bool(case.get("err_wrap"))
+    out_rec = mirror_stream(o_enc, o_wrap, case.get("slow_out", 0.0))    # explicit out_stream / err_stream objects
+    err_rec = mirror_stream(e_enc, e_wrap)
+    sys_out, sys_err = mirror_stream(o_enc, o_wrap), mirror_stream(e_enc, e_wrap)   # what sys.stdout / sys.stderr receive meanwhile
     watcher = RecordingWatcher()
     kwargs = dict(
         hide=HIDE[case.get("hide", "none")],
@@ -812,6 +967,7 @@ def run_scripted(case):
         "elapsed": elapsed,
         "kills": env.kills,
         "kills_after_exit": env.kills_after_exit,
+        "kill_errors": list(env.kill_errors), "kills_ineffective": env.kills_ineffective,
         "stop_calls": env.stop_calls,
         "program_finished": runner.program_finished.is_set(),
         "workers": sorted(workers),
